@@ -26,6 +26,7 @@ type Val struct {
 	Go     types.Type // Go type, may be nil for ghost values
 	Signed bool
 	Place  *Place
+	PlaceLost bool // a pointer whose symbolic place was lost in a merge: may not be dereferenced
 	Lit    *big.Int // set for untyped integer literals in contract expressions
 }
 
